@@ -421,6 +421,61 @@ def serve (cfg : Cfg) (routes : List Route) (req : Req) : Obs :=
             hXAPIVersion := h.xapi, hDeprecation := h.deprecation, hSunset := h.sunset, hLink := h.link,
             hWarning := h.warning }
 
+/-! ### observer callbacks (`version.WithObserver`) -/
+
+/-- `Detector.Method()` -/
+def Det.method : Det → Bytes
+  | .path _ => vb!"path" | .header _ => vb!"header" | .query _ => vb!"query"
+  | .accept _ => vb!"accept" | .custom _ => vb!"custom"
+
+/-- one call of an `Observer` callback -/
+inductive ObsEv where
+  | detected (v method : Bytes)
+  | missing
+  | invalid (v : Bytes)
+  | deprecatedUse (v route : Bytes)
+  deriving Repr, DecidableEq
+
+/-- `Engine.validateVersion`: the `notifyInvalid` call (an empty string is not reported) -/
+def validateEv (valid : List Bytes) (v : Bytes) : List ObsEv :=
+  if v = [] then []
+  else if valid.length = 0 then []
+  else if valid.contains v then []
+  else [.invalid v]
+
+/-- the callbacks of the detector loop of `Engine.DetectVersion`, in call order -/
+def detectLoopEv (valid : List Bytes) (path rawQuery : Bytes) : List (Det × LibVal) → List ObsEv
+  | [] => [.missing]
+  | d :: rest =>
+    match detectOne path rawQuery d with
+    | some v =>
+      match validateVersion valid v with
+      | some ok => [.detected ok d.1.method]
+      | Option.none => validateEv valid v ++ detectLoopEv valid path rawQuery rest
+    | Option.none => detectLoopEv valid path rawQuery rest
+
+/-- the callbacks one request causes (`ServeHTTP` with versioning enabled and an observer with all four
+    callbacks): nothing for a main-tree route; the detection callbacks when `processVersioning` runs the
+    detection, and once more when the request ends in 404/405 (`handleNotFound` detects again to fill
+    `Context.version`); `OnDeprecatedUse` at the end of the deprecated arm of `SetLifecycleHeaders` (which sets the
+    `Deprecation` header) -/
+def serveEvents (cfg : Cfg) (routes : List Route) (req : Req) : List ObsEv :=
+  match treeLookup (treeRoutes routes Option.none req.method) req.path with
+  | some _ => []
+  | Option.none =>
+    let dets := detectors cfg req
+    let det := detectLoopEv cfg.valid req.path req.rawQuery dets
+    -- `handleNotFound` / `handleMethodNotAllowed` fill `Context.version` with a detection of their own
+    let vc := processVersioning cfg routes req
+    (if shouldApplyVersioning cfg (dets.map (·.1)) req.path then det else []) ++
+    (match vc.tree with
+     | Option.none => det
+     | some tv =>
+       match treeLookup (treeRoutes routes (some tv) req.method) vc.routingPath with
+       | Option.none => det
+       | some p =>
+         if (setLifecycleHeaders cfg vc.version).1.deprecation.isSome then [.deprecatedUse vc.version p] else [])
+
 /-! ### the code as shipped (before the repairs), kept for the witness theorems -/
 
 /-- outcome of a shipped scanner: a value, nothing, or a run-time panic -/
